@@ -12,6 +12,7 @@ CONSTANTS
  MaxEvents = 1
  MaxFaults = 0
  Export = TRUE
+ RunToBlock = TRUE
  Mut = "none"
 SPECIFICATION Spec
 INVARIANTS InvPausedQuiet InvFlushFresh InvPauseSurvives InvTerminatedGone InvReset InvC11 InvNeverPropagated InvLoopShape ExportBehaviour
